@@ -4,12 +4,20 @@ offers a service to a peer only if an exported-services entry names that peer as
 spec/Peering.tla (+ PeeringMC, PeeringTrace), harness/cmd/h-peer.
 
 Pipeline: TLC checks the declarative property on the constructive specification for all bounded
-inputs (profiles upd / list / exp); TLC prints one behaviour per transition of those models; h-peer
+inputs (profiles upd / list / exp / e2e); TLC prints one behaviour per transition of those models; h-peer
 replays them - and seeded random histories over a larger universe - through the REAL
 peerstream handlers (processResponse -> handleUpsert -> handleUpdateService /
 handleUpsertExportedServiceList) on a real peerstream.Server whose backend applies catalog writes
 through the real fsm.FSM to a real state.Store, and through the real
 state.Store.ExportedServicesForPeer; TLC (PeeringTrace) judges every recorded step.
+
+Profile e2e joins a real exporting cluster (store + event publisher + peerstream.Server with its
+subscription manager) and a real importing cluster by an in-memory stream, both ends running the
+real HandleStream. Commands replace the exporter's exported-services entry in one write (add,
+remove, swap, arbitrary replacement, wildcard) and change its local catalog; after every command
+the harness waits until the replication settled and TLC judges whether the importer holds exactly
+what is exported now. The transitions TLC generates for this profile are chained into long walks
+(every command carries the abstract state it leads to), because every step costs a settle.
 """
 import json
 import os
@@ -48,6 +56,11 @@ PRED_DOC = {
     "ExportNoConsul": "the consul service is never offered",
     "ExportExact": "ExportedServicesForPeer.Services = Peering!Exported(cfg, local services, peer)",
     "ExportChainsAreServices": "without a wildcard entry for the peer, offered discovery chains are a subset of offered services",
+    "xconf": "end to end: the exporter's own local catalog and its stored exported-services entry are what the commands said",
+    "E2EOnlyExported": "end to end, after the stream settled: the importer holds no service of the peer that the exporter's entry does not export to it NOW",
+    "E2EMirror": "end to end: for every exported service the imported instances (node, address, version, flattened health) equal the exporter's",
+    "E2ENodes": "end to end: the imported nodes are exactly the exporter's nodes that carry an instance of an exported service, with their address",
+    "E2EChecks": "end to end: imported checks are per-instance only, none without its instance",
 }
 
 ASSUMPTIONS = [
@@ -59,21 +72,31 @@ ASSUMPTIONS = [
     "the sidecar-proxy twin of a name is name + '-sidecar-proxy' (the trace carries the map; TLC cannot concatenate strings)",
     "catalog writes reach the store through fsm.FSM.Apply exactly as PeeringBackend.CatalogRegister/Deregister submit them (no raft failures)",
     "raft index table, usage counters and the virtual-IP free list are not data of any cluster and are not compared",
+    "end to end: both servers run with Connect disabled (no trust bundles, mesh gateways, discovery chains on the stream); a step is "
+    "observed after the replication settled (all sent responses acknowledged, nothing moved for a quiet window scaled by the measured "
+    "replication latency, importer equal to the exporter's exports or a long patience window elapsed); commands are issued one at a time",
 ]
 
 # (R1, R2, R3) = richness of the update alphabet per depth, see PeeringMC.tla
 TIERS = {
     "quick": {
-        "mc": [("upd", 2, (1, 0, 0)), ("list", 3, (0, 0, 0)), ("exp", 1, (0, 0, 0))],
+        "mc": [("upd", 2, (1, 0, 0)), ("list", 3, (0, 0, 0)), ("exp", 1, (0, 0, 0)), ("e2e", 3, (0, 0, 0))],
         "gen": [("upd", 2, (0, 0, 0), 1), ("list", 2, (0, 0, 0), 1), ("exp", 1, (0, 0, 0), 8)],
         "random": [("import", 25, 25), ("export", 300, 1)],
+        # end to end: (profile, depth, richness, walk length, number of walks replayed or None = all), random (walks, length)
+        "e2e_gen": [(3, (0, 0, 0), 40, 12)],
+        "e2e_random": (6, 24),
     },
     "thorough": {
-        "mc": [("upd", 2, (1, 1, 0)), ("upd", 2, (0, 2, 0)), ("upd", 3, (0, 0, 0)), ("list", 4, (0, 0, 0)), ("exp", 1, (0, 0, 0))],
+        "mc": [("upd", 2, (1, 1, 0)), ("upd", 2, (0, 2, 0)), ("upd", 3, (0, 0, 0)), ("list", 4, (0, 0, 0)), ("exp", 1, (0, 0, 0)),
+               ("e2e", 4, (0, 0, 0)), ("e2e", 3, (1, 1, 1))],
         "gen": [("upd", 2, (1, 1, 0), 1), ("list", 3, (0, 0, 0), 1), ("exp", 1, (0, 0, 0), 1)],
         "random": [("import", 250, 40), ("export", 3000, 1)],
+        "e2e_gen": [(4, (0, 0, 0), 60, None), (2, (1, 1, 1), 60, None)],
+        "e2e_random": (32, 30),
     },
 }
+E2E_PROCS = 4   # end-to-end walks are mostly waiting: several harness processes side by side
 CHUNK = 6000   # events per TLC validation run
 
 
@@ -225,7 +248,121 @@ def _features(pre, e):
     return f
 
 
+def _strip(c):
+    return {k: v for k, v in c.items() if k != "key"}
+
+
+def _tour(traces, walk_len, rot=0):
+    """TLC printed one history per transition of the e2e model; every command carries `key`, the abstract
+    state it leads to. Chain the transitions into walks from the initial state that together take every
+    transition at least once (greedy: take an untaken transition of the current state, else walk to the
+    nearest state that has one)."""
+    seedcmd = traces[0][0]
+    edges = {}   # (src, cmd json) -> (cmd, dst)
+    for t in traces:
+        if len(t) < 2:
+            continue
+        src = json.dumps(t[-2]["key"], sort_keys=True) if len(t) > 2 else "INIT"
+        cmd = t[-1]
+        edges.setdefault((src, json.dumps(_strip(cmd), sort_keys=True)), (cmd, json.dumps(cmd["key"], sort_keys=True)))
+    out = {}
+    for (src, cj), (cmd, dst) in sorted(edges.items()):
+        out.setdefault(src, []).append((cj, cmd, dst))
+    for src in out:
+        k = rot % len(out[src])
+        out[src] = out[src][k:] + out[src][:k]
+    todo = set(edges)
+    walks, cur, walk = [], "INIT", [seedcmd]
+
+    def path_to_work(start):
+        prev, queue, seen = {}, [start], {start}
+        while queue:
+            n = queue.pop(0)
+            if n != start and any((n, cj) in todo for cj, _, _ in out.get(n, [])):
+                p = []
+                while n != start:
+                    n, step = prev[n]
+                    p.append(step)
+                return list(reversed(p))
+            for cj, cmd, dst in out.get(n, []):
+                if dst not in seen:
+                    seen.add(dst)
+                    prev[dst] = (n, (cj, cmd, dst))
+                    queue.append(dst)
+        return None
+    while todo:
+        step = next(((cj, cmd, dst) for cj, cmd, dst in out.get(cur, []) if (cur, cj) in todo), None)
+        steps = [step] if step else path_to_work(cur)
+        if steps is None or len(walk) >= walk_len:
+            if len(walk) > 1:
+                walks.append(walk)
+            elif steps is None:
+                break      # nothing reachable any more
+            cur, walk = "INIT", [seedcmd]
+            continue
+        for cj, cmd, dst in steps:
+            todo.discard((cur, cj))
+            walk.append(_strip(cmd))
+            cur = dst
+    if len(walk) > 1:
+        walks.append(walk)
+    return walks, len(edges), len(edges) - len(todo)
+
+
+def _exported(cfg, xcat, consumer):
+    """vacuity accounting only (the judge is Peering!ExpSet)"""
+    names = {e["name"] for e in cfg if consumer in e["peers"] and e["name"] != "*"}
+    if any(e["name"] == "*" and consumer in e["peers"] for e in cfg):
+        names |= {r["name"] for r in xcat["svcs"] if r["peer"] == ""}
+    return names - {"consul"}
+
+
+def _features_e2e(prev, e, ctx):
+    c = e["cmd"]
+    f = set()
+    k = c.get("consumer", "c1")
+    now = _exported(e["xcfg"], e["xcat"], k)
+    before = _exported(prev["xcfg"], prev["xcat"], k) if prev is not None and "xcat" in prev else set()
+    if c["t"] == "xcfg":
+        removed, added = before - now, now - before
+        ctx["removed"], ctx["swap"] = removed, bool(removed) and len(now) >= len(before)
+        if removed:
+            f.add("e2e-unexport")
+        if added:
+            f.add("e2e-export-added")
+        if removed and added:
+            f.add("e2e-swap")
+        if ctx["swap"]:
+            f.add("e2e-swap-list-not-shorter")
+        if before and not now:
+            f.add("e2e-unexport-all")
+        if any(x["name"] == "*" and k in x["peers"] for x in c["cfg"]):
+            f.add("e2e-wildcard-for-consumer")
+        if any(k not in x["peers"] for x in c["cfg"]):
+            f.add("e2e-entry-for-other-consumer-only")
+    elif c["t"] in ("xreg", "xdereg"):
+        svc = c["name"]
+        if svc in now:
+            f.add("e2e-change-of-exported-service")
+        else:
+            f.add("e2e-change-of-unexported-service")
+            if svc in ctx.get("removed", set()):
+                f.add("e2e-change-of-service-just-unexported")
+                if ctx.get("swap"):
+                    f.add("e2e-change-of-service-swapped-out")
+        if c["t"] == "xdereg":
+            f.add("e2e-deregister")
+    if any(r["peer"] == c.get("peer", "p1") for r in e["post"]["svcs"]):
+        f.add("e2e-importer-holds-imports")
+    if not e["settle"].get("mirrored"):
+        f.add("e2e-settle-gave-up")
+    return f
+
+
 REQUIRED_FEATURES = {
+    "e2e-unexport", "e2e-export-added", "e2e-swap", "e2e-swap-list-not-shorter", "e2e-unexport-all", "e2e-entry-for-other-consumer-only",
+    "e2e-change-of-exported-service", "e2e-change-of-unexported-service", "e2e-change-of-service-swapped-out", "e2e-deregister",
+    "e2e-importer-holds-imports",
     "instance-removed", "instance-added", "instance-kept", "instance-moved-node", "same-key-under-other-peer-or-local",
     "unused-node-removed", "shared-node-kept", "snapshot-node-shared-with-other-service", "node-check-dropped",
     "service-check-status-changed", "empty-snapshot", "list-prunes-service", "list-keeps-service", "list-keeps-sidecar-twin",
@@ -321,8 +458,49 @@ def run(tier):
             traces.append(("random:" + prof, tp, json.loads(p.stdout), None))
             cov["random"].append({"profile": prof, "histories": n, "length": length, "seed": s})
 
+        # 3b. end to end: TLC's transitions chained into walks + seeded random walks, several harness processes
+        e2e_jobs = []     # (name, behaviours or None, argv, trace path)
+        for gi, (depth, rich, wlen, nwalks) in enumerate(conf["e2e_gen"]):
+            g = vf.tlc_gen("PeeringMC", "gen.cfg", files={"gen.cfg": _cfg("gen", "e2e", depth, rich)}, timeout=2400, heap="6g")
+            walks, n_edges, n_cov = _tour(g.traces, wlen, rot=seed)
+            if nwalks is not None and len(walks) > nwalks:
+                step = max(1, len(walks) // nwalks)
+                walks = [walks[(seed + j * step) % len(walks)] for j in range(nwalks)]
+            cov["gen"].append({"profile": "e2e", "depth": depth, "alphabet_richness": list(rich), "transitions": n_edges,
+                               "transitions_in_tour": n_cov, "walks_replayed": len(walks), "steps_replayed": sum(len(w) - 1 for w in walks)})
+            for k in range(E2E_PROCS):
+                part = walks[k::E2E_PROCS]
+                if not part:
+                    continue
+                bf = os.path.join(work, "beh-e2e-%d-%d.json" % (gi, k))
+                with open(bf, "w") as f:
+                    json.dump(part, f)
+                tp = os.path.join(work, "gen-e2e-%d-%d.ndjson" % (gi, k))
+                e2e_jobs.append(("gen:e2e", part, ["replay", "-in", bf, "-out", tp], tp))
+        nw, wl = conf["e2e_random"]
+        for k in range(E2E_PROCS):
+            n = nw // E2E_PROCS + (1 if k < nw % E2E_PROCS else 0)
+            if n == 0:
+                continue
+            tp = os.path.join(work, "rnd-e2e-%d.ndjson" % k)
+            s = seed * 1000 + 31 * k + 7
+            e2e_jobs.append(("random:e2e", None, ["random", "-seed", str(s), "-n", str(n), "-len", str(wl), "-profile", "e2e", "-out", tp], tp))
+            cov["random"].append({"profile": "e2e", "histories": n, "length": wl, "seed": s})
+
+        def e2e_job(argv):
+            def fn():
+                p = vf.run_harness(binary, argv, timeout=7200)
+                if p.returncode != 0:
+                    raise vf.Infra("h-peer end-to-end run failed: %s" % p.stderr[-2000:])
+                return json.loads(p.stdout)
+            return fn
+        metas = _parallel([e2e_job(a) for _, _, a, _ in e2e_jobs], E2E_PROCS * 2)
+        for (name, behs, _, tp), meta in zip(e2e_jobs, metas):
+            traces.append((name, tp, meta, behs))
+
         # 4. TLC judges every recorded step
         n_beh = n_events = 0
+        e2e_lat = []
         samples = []
         pred_hits = {}
         feats = {}
@@ -337,9 +515,20 @@ def run(tier):
                                 "impl_read": rows[k].get("csn", rows[k].get("svclist")),
                                 "accepted_by_tlc": not any(line == k + 1 for line, _ in rejects)})
             prev = None
+            prev_e = None
+            ctx = {}
             for e in rows:
                 pre = e.get("pre", prev)
-                fs = _features(pre, e)
+                if "xcat" in e:
+                    if "xpre" in e:
+                        prev_e, ctx = None, {}
+                    fs = _features_e2e(prev_e, e, ctx)
+                    lat = e["settle"].get("lat_ms")
+                    if lat is not None:
+                        e2e_lat.append(lat)
+                    prev_e = e
+                else:
+                    fs = _features(pre, e)
                 for x in fs:
                     feats[x] = feats.get(x, 0) + 1
                 if fs:
@@ -369,6 +558,8 @@ def run(tier):
                     "(PeeringTrace); distinct_nontrivial = number of distinct (command kind, set of exercised situations) classes among "
                     "the judged implementation steps, situations listed in situations_exercised",
             "situations_exercised": feats,
+            "e2e_replication_latency_ms": {"steps": len(e2e_lat), "max": max(e2e_lat) if e2e_lat else None,
+                                           "median": sorted(e2e_lat)[len(e2e_lat) // 2] if e2e_lat else None},
             "model_check": cov["mc"], "generation": cov["gen"], "random": cov["random"],
             "predicates": sorted(PRED_DOC), "predicate_doc": PRED_DOC,
             "rejected_steps_by_predicate": pred_hits,
